@@ -126,6 +126,7 @@ def run_shard(ctx):
             _st, _m, obj, r = env.stage_and_transfer(odb_add, ws)
             if r.failed:
                 raise env.HarnessError("population failed")
+            loaded_before = load(odb, obj.hash_info)  # the caller's in-memory tree, read before any tampering
             objs, _t, _s = list_store(root)
             oids = sorted(objs)
             file_oids = [o for o in oids if not o.endswith(DIR_SUFFIX)]
@@ -202,7 +203,7 @@ def run_shard(ctx):
                     res.violation("absent-object-reported-existing", "oids_exist lists an id that is not in the store", case=case, detail=cfg)
             else:
                 out = os.path.join(d, "out")
-                target = obj if rng.random() < 0.5 else load(odb, obj.hash_info)
+                target = obj if rng.random() < 0.5 else loaded_before
                 file_victims = {v for v in victims if not v.endswith(DIR_SUFFIX)}
                 if rng.random() < 0.3 and file_victims:
                     # single-file checkout of the tampered object itself
